@@ -5,8 +5,22 @@
 import json,os,subprocess,sys,glob,re,tempfile,shutil
 from concurrent.futures import ThreadPoolExecutor
 ARV=os.environ.get('ARVCHECK','/verif/bin/arvcheck')
-props=subprocess.run([ARV,'-list'],capture_output=True,text=True).stdout.split()
+pats={}
+for l in subprocess.run([ARV,'-patterns'],capture_output=True,text=True).stdout.splitlines():
+    f=l.split(); pats[f[0]]=[p.lstrip('./').rstrip('.').rstrip('/') for p in f[1:]]
+props=sorted(pats)
 only=sys.argv[1:]
+ALL=os.environ.get('ALL')=='1'
+def relevant(diff):
+    # properties whose quick tier loads (as a root) a package touched by the diff; ALL=1 runs every property
+    dirs=set(os.path.dirname(m) for m in re.findall(r'^diff --git a/(\S+)',open(diff).read(),re.M))
+    if ALL: return props
+    out=[]
+    for p,ps in pats.items():
+        if any(d==q or d.startswith(q+'/') for d in dirs for q in ps): out.append(p)
+    own=diff.split('/')[-2]
+    if own not in out: out.append(own)
+    return sorted(out)
 def one(diff):
     name=diff.replace('/verif/refactors/','')
     wt=tempfile.mkdtemp(prefix='refacwt-',dir='/tmp'); os.rmdir(wt)
@@ -18,7 +32,7 @@ def one(diff):
         a=subprocess.run(['git','-C',wt,'apply',diff],capture_output=True,text=True)
         if a.returncode!=0:
             return name,{'error':'patch does not apply: '+a.stderr[:200]}
-        for p in props:
+        for p in relevant(diff):
             out=subprocess.run([ARV,'-prop',p,'-repo',wt,'-verif',ev],capture_output=True,text=True).stdout
             bad=[l.replace(wt+'/','')[:300] for l in out.splitlines() if l.startswith(('FAIL','UNDECIDED','VIOLATION','load failed','checker panic'))]
             if bad: res[p]=bad
@@ -26,7 +40,7 @@ def one(diff):
         subprocess.run(['git','-C','/repo','worktree','remove','--force',wt],capture_output=True)
         shutil.rmtree(ev,ignore_errors=True)
     print(name,'ALARM '+' '.join(res) if res else 'quiet',flush=True)
-    return name,res
+    return name,{'checked':relevant(diff),'alarms':res}
 diffs=sorted(glob.glob('/verif/refactors/*/refactor*.diff'))
 if only: diffs=[d for d in diffs if any(o in d for o in only)]
 with ThreadPoolExecutor(int(os.environ.get('JOBS','5'))) as ex:
@@ -35,4 +49,4 @@ mp='/verif/refactors/matrix.json'
 old=json.load(open(mp)) if os.path.exists(mp) and only else {}
 old.update(results)
 json.dump(dict(sorted(old.items())),open(mp,'w'),indent=1)
-print(sum(1 for v in old.values() if v),'of',len(old),'refactorings raise an alarm')
+print(sum(1 for v in old.values() if v.get('alarms') or v.get('error')),'of',len(old),'refactorings raise an alarm;',sum(len(v.get('checked',[])) for v in old.values()),'(refactoring, property) pairs checked')
